@@ -164,6 +164,13 @@ def run_case(ctx, rnd, backend, where):
             prod[(info["task"].split(".")[-1], info["first_arg"])] = info.get("call_hash")
         if info["task"] == "c21.recov":
             recov_calls.add(info.get("call_hash"))
+    # a recovery replayed from an earlier execution on the same backend (the catch expression is served from the cache
+    # without a recov job in this execution) is still the producer of the argument
+    try:
+        recov_calls |= {r[0] for r in q("select call_hash from call_node where task_name like '%recov'")}
+        ctx.count("recov_call_nodes_known", len(recov_calls))
+    except Exception:
+        pass
     for kind, tag, args, kw in sinks:
         sink_info = next((c.jobs[j] for j in c.job_order if c.jobs[j]["task"].startswith("c21.sink") and c.jobs[j].get("first_arg") == tag
                           and c.jobs[j]["task"].endswith(kind[:5])), None)
@@ -208,8 +215,9 @@ def run_case(ctx, rnd, backend, where):
                 ctx.violation("upstream-link-missing:" + form, "argument form %s: producers %r not linked" % (
                     form, sorted(p for p in required if prod.get(p) in missing)), dict(wit, form=form))
             if extra:
-                ctx.violation("upstream-link-spurious:" + form, "argument form %s: %d link(s) to calls outside the argument" % (
-                    form, len(extra)), dict(wit, form=form))
+                names = [str(r[0]) for e_ in sorted(extra) for r in q("select task_name from call_node where call_hash=:c", c=e_)]
+                ctx.violation("upstream-link-spurious:" + form, "argument form %s: %d link(s) to calls outside the argument (%s)" % (
+                    form, len(extra), ", ".join(names)), dict(wit, form=form))
     return backend
 
 
